@@ -148,8 +148,12 @@ def check(pid, tier, seed, drv):
     rep = mod.run(tier, seed, drv)
     if pid in COMBINED and not rep.get("machinery_errors"):
         # native (rt) stage of the same property: merged into one verdict / one evidence file
-        drv["build_rt"]()
-        rt = drv["run_rt"](pid, tier, 3 * 3600)
+        drv["build_rt"](pid)
+        if drv["rt_build"].get("own_errors"):
+            rt = drv["own_engine_report"](pid)  # the native engine's fixed programs are rejected by rustc
+            rep["exhaustive"] = False
+        else:
+            rt = drv["run_rt"](pid, tier, 3 * 3600)
         rep = merge_reports(rt, rep)
     if rep.get("machinery_errors"):
         for e in rep["machinery_errors"][:10]:
